@@ -34,7 +34,22 @@ func (v *VerifFile) Close() {
 }
 func (v *VerifFile) Span() (time.Time, time.Time) { return v.f.timeBegin, v.f.timeEnd }
 
-func VerifCounterSpan() (time.Time, time.Time, error) { return counterSpan() }
+// VerifCounterSpan: the span a fresh file object computes when it is opened
+// (through rotate1, the only caller of counterSpan, so that the harness does
+// not depend on the signatures of the helpers behind it).
+func VerifCounterSpan() (time.Time, time.Time, error) {
+	f := &file{}
+	f.rotate1()
+	if m := f.current.Load(); m != nil {
+		m.close()
+	}
+	f.mu.Lock()
+	defer f.mu.Unlock()
+	if f.err != nil {
+		return time.Time{}, time.Time{}, f.err
+	}
+	return f.timeBegin, f.timeEnd, nil
+}
 func VerifWeekEnd() (int, error) {
 	w, err := weekEnd()
 	return int(w), err
